@@ -222,6 +222,7 @@ class Check:
         self.violations = []   # (signature, description, replay payload)
         self.known = []
         self.distinct = set()
+        self.dup = {}
 
     def add_tlc(self, name, res, **kw):
         self.cov["states"] += res.distinct
@@ -245,6 +246,10 @@ class Check:
             if kf.get("signature") == signature:
                 if signature not in [k[0] for k in self.known]:
                     self.known.append((signature, kf.get("what", desc)))
+                return
+        for v in self.violations:
+            if v[0] == signature:
+                self.dup[signature] = self.dup.get(signature, 1) + 1
                 return
         self.violations.append((signature, desc, payload))
 
@@ -271,7 +276,7 @@ class Check:
                     json.dump({"property": self.prop, "signature": sig, "description": desc, "seed": self.seed,
                                "tier": self.tier, "payload": payload}, f, indent=1, default=str)
                 print(f"VIOLATION property={self.prop} replay={path}")
-                log(f"  {sig}: {desc}")
+                log(f"  {sig} (x{self.dup.get(sig, 1)}): {desc}")
             return 1
         print(f"OK property={self.prop} tier={self.tier} seed={self.seed} states={self.cov['states']} "
               f"traces={self.cov['traces_validated_against_impl']} evaluations={self.cov['evaluations']} wall={ev['wall_s']}s")
